@@ -14,7 +14,9 @@ HEAPNOTE = "Bounded: exhaustive for the listed small scopes, sampled beyond. Tru
 CHECKS["C01"] = dict(ref="5/C01", text="The container is specified as a heap machine over ONE list of (name, residues) rows; TLC enumerates every "
     "operation instance (all three duplicate-name policies, boundary arguments) from a set of seed heaps and samples longer histories, which are "
     "replayed on the real objects; after every call the object is read back through iteration, by index and by name (rotating accessor families) and "
-    "TLC validates state, error class, cached length, rectangularity and view agreement against the specification, re-synchronising after a mismatch.",
+    "TLC validates state, error class, cached length, rectangularity and view agreement against the specification, re-synchronising after a mismatch. "
+    "The same machine without history is explored as a state graph (MC_Heap: every heap reachable in 2 / 3 operations) for rectangularity, name "
+    "distinctness unless the caller merges names, rejection without change and the read-only operations.",
     note=HEAPNOTE)
 CHECKS["C04"] = dict(ref="5/C04", text="Site extraction / coordinate operations are TLA+ functions with explicit error conditions; TLC enumerates every "
     "integer argument in -1..L+1, every small site list, every reference row and a family of AddRange partitions (modulo, blocks, invalid) on seed "
